@@ -75,6 +75,10 @@ func runC01(w *W) {
 	fuzzSpace(w, func(c fuzzCase) {
 		w.Begin(c.Idx, c.Input, c.Desc)
 		items, pv := safeTokenize(c.Input)
+		if strings.HasPrefix(pv, "lexer-overflow") {
+			w.Count("lexer-nontermination(C02/C12)")
+			return
+		}
 		if pv != "" {
 			w.Report(Finding{Kind: "lexer-panic", Key: "lexer-panic", Input: fmt.Sprintf("%q", c.Input), InputHex: hexs(c.Input), Detail: pv})
 			return
@@ -119,8 +123,8 @@ func runC02(w *W) {
 	fuzzSpace(w, func(c fuzzCase) {
 		w.Begin(c.Idx, c.Input, c.Desc)
 		items, pv := safeTokenize(c.Input)
-		if pv != "" {
-			return // C12's business
+		if pv != "" && !strings.HasPrefix(pv, "lexer-overflow") {
+			return // a lexer panic is C12's business
 		}
 		nt := pumpedTokens(items)
 		budget := budgetFor(cal, nt)
